@@ -438,6 +438,10 @@ impl<T: ClusterKey> TopologyManager<T> {
             self.node_heartbeats.insert(*peer_id, now);
         }
 
+        // The sender computed its replica sets without knowing what we know (at the
+        // very least that we are alive): derive them again from the merged membership
+        self.recalculate_partition_assignments();
+
         info!("updated partition replica assignments from remote information");
     }
 
